@@ -20,5 +20,4 @@ fuzz_target!(|data: &[u8]| {
     check::<fol::Theory>(text, "theory");
     check::<fol::Specification>(text, "specification");
     check::<fol::UserGuide>(text, "user guide");
-    check::<fol::Formula>(text, "formula");
 });
